@@ -14,7 +14,8 @@
 (*         the same readings as the previous frame, none stored            *)
 (*   ins = the values the port reads returned, in order                    *)
 (*                                                                         *)
-(* Part 1: file level operators (also used by RzxCases / RzxTrace).        *)
+(* Parts 1-3 live in RzxProtocol (also used by RzxCases / RzxTrace):      *)
+(* Part 1: file level operators.                                           *)
 (* Part 2: frame-end rules: the recorder's convention, the player's        *)
 (*         decision under the playback flags, ConvMatches.                 *)
 (* Part 3: the player's bookkeeping (frame_index, fetch_counter, in_index, *)
@@ -36,99 +37,7 @@
 (*   always      a frame never ends between a lone DD/FD prefix and the    *)
 (*               opcode it precedes (PrefixNop steps of Z80.tla).          *)
 (***************************************************************************)
-EXTENDS Z80
-
------------------------------------------------------------------------------
-(* Part 1 - the file *)
-Repeat == 65535
-StoredFrame(fc, ins) == [fc |-> fc, ic |-> Len(ins), ins |-> ins]
-RepeatFrame(fc) == [fc |-> fc, ic |-> Repeat, ins |-> <<>>]
-
-WellFormed(fs) ==
-  \A i \in 1..Len(fs) :
-    /\ fs[i].fc \in 0..65535
-    /\ \/ fs[i].ic = Repeat /\ fs[i].ins = <<>>
-       \/ fs[i].ic < Repeat /\ fs[i].ic = Len(fs[i].ins)
-    /\ \A j \in 1..Len(fs[i].ins) : fs[i].ins[j] \in 0..255
-
-\* the readings frame i of a block really has (a repeated frame refers back; before the first: none)
-RECURSIVE InsOf(_, _)
-InsOf(fs, i) == IF i < 1 THEN <<>> ELSE IF fs[i].ic = Repeat THEN InsOf(fs, i - 1) ELSE fs[i].ins
-
-Expand(fs) == [i \in 1..Len(fs) |-> [fc |-> fs[i].fc, ins |-> InsOf(fs, i)]]
-
-\* canonical encoding: use the repeated-frame marker whenever the readings equal the previous frame's
-Encode(xs) == [i \in 1..Len(xs) |->
-                 IF i > 1 /\ xs[i].ins # <<>> /\ xs[i].ins = xs[i - 1].ins
-                 THEN RepeatFrame(xs[i].fc) ELSE StoredFrame(xs[i].fc, xs[i].ins)]
-
-\* what remains to be played when the player stands at the start of frame i (StopAndWrite): markers resolved
-Remaining(fs, i) == [k \in 1..(Len(fs) + 1 - i) |-> StoredFrame(fs[i + k - 1].fc, InsOf(fs, i + k - 1))]
-
-\* what a faithful report of a block shows per frame: fetch counter, IN counter, for a repeated frame the
-\* number of readings it stands for, the (first ten) readings and whether there are more
-Min2(a, b) == IF a < b THEN a ELSE b
-Info(fs, i) == LET ins == InsOf(fs, i) IN
-  [fc |-> fs[i].fc, ic |-> fs[i].ic, rep |-> IF fs[i].ic = Repeat THEN Len(ins) ELSE -1,
-   shown |-> SubSeq(ins, 1, Min2(10, Len(ins))), more |-> IF Len(ins) > 10 THEN 1 ELSE 0]
-InfoView(fs) == [i \in 1..Len(fs) |-> Info(fs, i)]
-
------------------------------------------------------------------------------
-(* Part 2 - frame ends *)
-\* M1 fetches of the step that starts with bytes b0 b1 (Z80.tla: Decode(s).ri)
-Fetches(b0, b1) == IF b0 \in {203, 237} THEN 2
-                   ELSE IF b0 \in {221, 253} THEN (IF Indexable(b1) THEN 2 ELSE 1)
-                   ELSE 1
-LonePrefix(b0, b1) == b0 \in {221, 253} /\ ~Indexable(b1)
-
-\* the player does not decode: for DD/FD it looks at the parity of the R register before and after
-PlayerFetches(b0, r0, r1) == IF b0 \in {221, 253} THEN 2 - ((r0 + r1) % 2)
-                             ELSE IF b0 \in {203, 237} THEN 2 ELSE 1
-
-Cls(b0, b1) == IF b0 = 118 THEN "halt"
-               ELSE IF b0 = 237 /\ b1 \in {87, 95} THEN "ldair"
-               ELSE IF b0 = 251 THEN "ei"
-               ELSE "other"
-
-\* what the recorder does at a frame end with IFF = 1; xcls = class of the instruction it executed last
-RecorderDecision(conv, xcls, halted) ==
-  IF halted = 1 THEN "accept-halt"                    \* the CPU leaves HALT: PC+1 is pushed
-  ELSE IF xcls = "ldair" THEN (IF Bit(conv, 0) = 1 THEN "accept-pv" ELSE "accept")
-  ELSE IF xcls = "ei" THEN "block"                    \* only reachable under ShortFrameAfterEI
-  ELSE "accept"
-
-\* what the player does at a frame end with IFF = 1; mcls = class of the bytes it finds at the address of
-\* the last instruction, nextfc = fetch counter of the next frame it will play (-1: none in this block)
-PlayerDecision(flags, mcls, nextfc) ==
-  IF mcls = "halt" THEN "accept-halt"
-  ELSE IF Bit(flags, 0) = 1 /\ mcls = "ldair" THEN "accept-pv"
-  ELSE IF Bit(flags, 1) = 1 THEN (IF mcls # "ei" \/ nextfc > 2 THEN "accept" ELSE "block")
-  ELSE "accept"
-
-SetOfLive(fs, i) == { j \in i..Len(fs) : fs[j].fc > 0 }
-FirstLive(fs, i) == LET live == SetOfLive(fs, i) IN
-                    IF live = {} THEN Len(fs) + 1 ELSE CHOOSE j \in live : \A k \in live : j <= k
-NextFcIn(fs, i) == LET j == FirstLive(fs, i + 1) IN IF j > Len(fs) THEN -1 ELSE fs[j].fc
-
-\* ends[i] = [iff, mcls, dec]: what the recorder saw and did at the end of frame i of the block.
-\* The playback flags match the recording convention iff the player takes the recorder's decision everywhere.
-ConvMatchesBlock(flags, fs, ends) ==
-  \A i \in 1..Len(fs) : (fs[i].fc > 0 /\ ends[i].iff = 1)
-                        => PlayerDecision(flags, ends[i].mcls, NextFcIn(fs, i)) = ends[i].dec
-
------------------------------------------------------------------------------
-(* Part 3 - the player's counters: p = [fi, fc, ii, cnt]                   *)
-(* fi frame index in the block (0 before the first), fc fetch counter,     *)
-(* ii readings consumed in the frame, cnt frames completed over all blocks *)
-PStart(cnt) == [fi |-> 0, fc |-> 0, ii |-> 0, cnt |-> cnt]
-\* frames with fetch counter 0 are skipped (they are counted, nothing else happens)
-PNextFrame(fs, p) == LET j == FirstLive(fs, p.fi + 1) IN
-  [fi |-> j, fc |-> IF j > Len(fs) THEN -1 ELSE fs[j].fc, ii |-> 0,
-   cnt |-> p.cnt + (j - p.fi) - (IF p.fi = 0 THEN 1 ELSE 0)]
-PPlay(p, m1, isin) == [p EXCEPT !.fc = @ - m1, !.ii = @ + isin]
-Exhausted(fs, p) == p.ii >= Len(InsOf(fs, p.fi))
-LeftOver(fs, p) == p.ii < Len(InsOf(fs, p.fi))
-Reading(fs, p) == InsOf(fs, p.fi)[p.ii + 1]
+EXTENDS RzxProtocol
 
 -----------------------------------------------------------------------------
 (* Part 4 - recorder and player over the Z80 machine *)
